@@ -57,7 +57,6 @@ import (
 	_ "unsafe"
 
 	"golang.org/x/tools/go/ssa"
-	
 )
 
 var curFr *frame // innermost interpreted frame (diagnostics only)
@@ -80,6 +79,7 @@ func targetStack() string {
 type fnInfo struct {
 	idx map[ssa.Value]int
 	n   int
+	cov []bool // per basic block: executed at least once (functions of github.com/coregx/* only)
 }
 
 func (i *interpreter) infoOf(fn *ssa.Function) *fnInfo {
@@ -118,6 +118,9 @@ func (i *interpreter) infoOf(fn *ssa.Function) *fnInfo {
 	}
 	if i.infos == nil {
 		i.infos = map[*ssa.Function]*fnInfo{}
+	}
+	if isCoregxFn(fn) {
+		inf.cov = make([]bool, len(fn.Blocks))
 	}
 	i.infos[fn] = inf
 	return inf
@@ -770,6 +773,9 @@ func runFrame(fr *frame) {
 		}
 
 		nonPhis := executePhis(fr)
+		if c := fr.info.cov; c != nil && fr.block.Index < len(c) {
+			c[fr.block.Index] = true
+		}
 		if ex != nil && ex.logging {
 			ex.steps += int64(len(nonPhis))
 			if ex.steps > ex.StepLimit {
